@@ -143,7 +143,12 @@ def _vardef_cases(rng, n):
             lv = sorted(rng.sample(range(10, 10000), nl))
         else:
             lv = sorted(rng.sample(range(9000, 100000), nl))
-        sfc = rng.choice([Fraction(0), Fraction(1), Fraction(1013), Fraction(2)]) if rng.random() < 0.8 else Fraction(0)
+        sfc = rng.choice([Fraction(0), Fraction(1), Fraction(1013), Fraction(2), Fraction(1000), Fraction(10)]) if rng.random() < 0.8 else Fraction(0)
+        if style in ('hpa', 'm', 'm_high') and rng.random() < 0.5:
+            # exact powers of ten (1000 hPa, 100 m, 10000 m): the number of digits is a logarithm
+            p10 = [x for x in (10, 100, 1000, 10000) if (style == 'm_high') == (x >= 9000)]
+            if p10:
+                lv = sorted(set(lv[1:]) | {rng.choice(p10)}, reverse=(style == 'hpa'))
         levels = [sfc] + [Fraction(x) for x in lv if Fraction(x) != sfc]
         keys = [rng.sample(VKEYS[:4], rng.randint(1, 3))] + [rng.sample(VKEYS[4:], rng.randint(1, 4)) for _ in levels[1:]]
         sums = [[rng.randint(0, 254) for _ in k] for k in keys]
